@@ -46,6 +46,30 @@ why={
 'C16-m8':'GetCallableFrom / IncludeFilePath (MROPATH layout) not under contract',
 'C18-m8':'change is in a job template file (jobmanagers/*.template), not in Go code; templates are outside the contracts',
 
+'C01-m9':'DisabledExp.makeDisabledExp (which nested disable controls are the same) not under contract',
+'C01-m10':'MergeExp.BindingPath (restoring the shared fork map after a static merge) not under contract',
+'C03-m10':'getUnknownLength (length of a run-time array from its raw JSON) not under contract',
+'C04-m9':'getMaybeFileNames (which JSON strings name files) not under contract',
+'C05-m9':'Fork.restartLocalJobs not under contract (which chunk jobs are reset on a local restart)',
+'C06-m9':'Metadata.endRefresh / failNotRunning: the not-running marker and its grace period are wall-clock state',
+'C06-m10':'Chunk.verifyOutput has only its event contract; which stages are validated at all is not stated',
+'C07-m9':'StructType.CheckEqual (equality of two definitions of one struct name) not under contract',
+'C07-m10':'Pipeline.directDepsMap (dependency edges through split references) not under contract; topoSort is verified relative to the map it is given',
+'C08-m9':'CallStm.checkBindingMap is not in the no-panic sweep (compile phase); only the lexer/parser carriers are',
+'C09-m9':'BindStm.format: comment printing for the bound expression is not under contract',
+'C09-m10':'formatGB (mem_gb / vmem_gb text) not under contract',
+'C10-m10':'the comparator stays a strict weak order; that tied elements are equal is not an obligation (see comparator obligations)',
+'C11-m9':'Chunk.updateState has a routing contract only; it does not state that the uniquifier passed on is the one parsed from the journal name',
+'C11-m10':'NewMetadataRunWithJournalPath (job-side journal name) not under contract',
+'C12-m9':'RemoteJobManager.reattach: blocking acquire before the run loop exists is a liveness property',
+'C12-m10':'LocalJobManager.Enqueue: float64 centicore arithmetic is not modelled (reals)',
+'C13-m9':'moveOutFiles is a trusted contract (file system)',
+'C13-m10':'moveOutArrayDir is a trusted contract (file system)',
+'C14-m10':'Fork.updateParamFileCache (dropping stale keep-alive arguments from the cache) not under contract',
+'C16-m9':'possibleStructType (struct or typed map for an unresolved type name) not under contract',
+'C17-m9':'StructType.FilterJson: only the null clause is stated; "different iff some member changed" needs the member loop invariant',
+'C18-m9':'verifyJobManager edits the job template text; templates are outside the contracts',
+'C18-m10':'change is in a job template file (jobmanagers/*.template), not in Go code',
 }
 rows=[]
 for d in sorted(glob.glob('/verif/seeded/*'),key=lambda x:(os.path.basename(x).split('-')[0],int(os.path.basename(x).split('-m')[1]))):
